@@ -72,6 +72,11 @@ def observe_case(a, th, tracked, sample_lists, cmap, tmap, tscale, rng):
             x = tree.path_length(u, v)
             pl.append([u, v, -1 if x == float("inf") else int(x)])
         ob["pathlen"] = pl
+        ob["dist"] = [[u, v, as_int(tree.distance_between(u, v), tscale)] for u, v, x in pl if x >= 0]
+        ob["anc"] = [[int(v) for v in tree.ancestors(u)] for u in range(N)]
+        ob["sibs"] = [[int(v) for v in tree.siblings(u)] for u in range(N)]
+        ob["isol"] = [1 if tree.is_isolated(u) else 0 for u in range(N)]
+        ob["pdict"] = [[int(u), int(p)] for u, p in sorted(tree.parent_dict.items())]
         sub = rng.randrange(N + 1)  # may be the virtual root
         ob["subroot"] = sub
         ob["subpre"] = [int(u) for u in tree.nodes(sub, order="preorder")]
